@@ -77,3 +77,98 @@ class WriteBarrier:
             else:
                 cls.__setattr__ = old
         return False
+
+
+# ------------------------------------------------------------------------------------------------ ghost binary file (NTv2)
+F32 = z3.Function('FILE_F32', S.R, S.R)
+F64 = z3.Function('FILE_F64', S.R, S.R)
+I32 = z3.Function('FILE_I32', S.R, S.R)
+
+
+class GhostBytes:
+    def __init__(self, off, n, gf):
+        self.off, self.n, self.gf = off, n, gf
+
+    def decode(self, *a):
+        return GhostStr(self.off, self.n)
+
+
+class GhostStr:
+    def __init__(self, off, n):
+        self.off, self.n = off, n
+
+    def strip(self, *a):
+        return self
+
+    def __eq__(self, o):
+        return isinstance(o, GhostStr) and o.n == self.n and z3.is_true(z3.simplify(lift(o.off) == lift(self.off)))
+
+    def __hash__(self):
+        return hash(('ghoststr', str(z3.simplify(lift(self.off))), self.n))
+
+    def __repr__(self):
+        return 'FILE_STR(%s,%d)' % (z3.simplify(lift(self.off)), self.n)
+
+
+class GhostFile:
+    """binary file with a symbolic cursor: seek/read advance it, every read is logged with its offset and length; the
+    content is the uninterpreted FILE_F32 / FILE_F64 / FILE_I32 (offset)"""
+
+    def __init__(self, concrete_ints=None):
+        self.pos = z3.RealVal(0)
+        self.reads = []
+        self.concrete_ints = concrete_ints or {}
+
+    def __enter__(self):
+        return self
+
+    def __exit__(self, *a):
+        return False
+
+    def seek(self, off, whence=0):
+        o = lift(off)
+        self.pos = z3.simplify(self.pos + o) if whence == 1 else z3.simplify(o)
+
+    def read(self, n):
+        b = GhostBytes(self.pos, n, self)
+        self.reads.append((self.pos, n))
+        self.pos = z3.simplify(self.pos + n)
+        return b
+
+
+class GhostStruct:
+    @staticmethod
+    def unpack(fmt, b):
+        if not isinstance(b, GhostBytes):
+            import struct
+            return struct.unpack(fmt, b)
+        if fmt == 'f' and b.n == 4:
+            return (Sym(F32(lift(b.off))),)
+        if fmt == 'd' and b.n == 8:
+            return (Sym(F64(lift(b.off))),)
+        raise EngineError('ghost struct.unpack(%r) of %d bytes' % (fmt, b.n))
+
+
+def ghost_int_from_bytes(b, byteorder='big'):
+    if isinstance(b, GhostBytes):
+        if b.n != 4 or byteorder != 'little':
+            raise EngineError('ghost int.from_bytes of %d bytes (%s)' % (b.n, byteorder))
+        k = z3.simplify(lift(b.off))
+        if z3.is_rational_value(k) and int(k.as_fraction()) in b.gf.concrete_ints:
+            return b.gf.concrete_ints[int(k.as_fraction())]
+        return SymInt(I32(lift(b.off)))
+    return int.from_bytes(b, byteorder)
+
+
+class GhostDT:
+    """stands for datetime.datetime in ntv2reader: strptime(...).strftime(...) of a ghost string is a date token"""
+    class _D:
+        def __init__(self, s):
+            self.s = s
+
+        def strftime(self, fmt):
+            return ('DATE', self.s)
+
+    @staticmethod
+    def strptime(s, fmt):
+        return GhostDT._D(s)
